@@ -501,8 +501,9 @@ def check_ak_group(item):
         except Exception as e:      # noqa: BLE001
             fails[order[0]].append(('akima', 'SplineComp', ('exc', '%s: %s' % (type(e).__name__, str(e)[:140])),
                                     'no error expected for interior points'))
-    # the table interpolant: value, d/dx (general and fixed-dimension method), d/d table the way the component gets it
-    for m in ('akima', '1D-akima'):
+    # the table interpolant: value, d/dx, d/d table the way the component gets it.  ('1D-akima' is not part of this
+    # family: Interp1DAkima does not hand **kwargs to its base class, so its delta_x is always 0 - another interpolant.)
+    for m in ('akima',):
         try:
             it = InterpND(method=m, points=grid, values=tab.copy(), delta_x=delta)
         except Exception as e:      # noqa: BLE001
@@ -536,14 +537,16 @@ def _ak_worker(chunk):
 
 def run_akima(ctx, quick):
     """the family of Interp.tla (InitAk / ChooseAk): exact Akima value and derivatives for delta_x > 0"""
-    mod = 32 if quick else 4
+    mod = 64 if quick else 4
     cfg = c15.write_cfg(ctx, 'InterpAkima.cfg', dims=[1], npoly=1, all1d=False, nrep=1, nrep3=1, full2d=False,
                         interior=True, exset=[False], akima=(mod, ctx.seed % mod))
-    r = ctx.tlc_check('mech/Interp', cfg, workers=nproc(), timeout=2400, heap='8g')
-    ctx.require_actions(['ChooseAk'])
+    # without -coverage: TLC's coverage mode re-evaluates the LET definitions of the dual-number arithmetic at every
+    # use (no end); the vacuity guard is the number of exported ChooseAk states instead
+    r = ctx.tlc_check('mech/Interp', cfg, workers=min(8, nproc()), timeout=2400, heap='8g', coverage=False)
     exps = r.exports('AK')
-    if not exps:
-        raise MachineryError('no Akima scenarios exported')
+    n_init = 11         # 5 grids x delta_x in {1/2, 1} + the evenly spaced grid with delta_x = 2
+    if len(exps) < 500 or len(exps) != r.distinct - n_init:
+        raise MachineryError('Akima family: %d scenarios exported, %d states' % (len(exps), r.distinct))
     groups = collections.OrderedDict()
     for e in sorted(exps, key=lambda e: json.dumps(e['s'], sort_keys=True)):
         ak_crosscheck(e)
@@ -593,7 +596,7 @@ def replay_akima(ctx, rec):
     base = {k: v for k, v in s.items() if k not in ('x', 'failing')}
     cfg = c15.write_cfg(ctx, 'InterpAkimaReplay.cfg', dims=[1], npoly=1, all1d=False, nrep=1, nrep3=1, full2d=False,
                         interior=True, exset=[False], akima=(997, 0))
-    ctx.tlc_check('mech/Interp', cfg, workers=2, timeout=1200, heap='4g')      # the laws on a small sample
+    ctx.tlc_check('mech/Interp', cfg, workers=2, timeout=1200, heap='4g', coverage=False)   # the laws on a small sample
     ak_crosscheck({'s': base, 'o': o})
     pts = [(base['X'] / 4.0, float(fr(o['v'])), float(fr(o['dx'])), [float(fr(t)) for t in o['dT']], o['rounded'])]
     cnt, fails = check_ak_group((base['g'], base['T'], base['dl'], pts, True))
@@ -664,6 +667,19 @@ def pred_gradient_method(scenario, info):
     return bool(fl) and scenario.get('dim', 1) >= 2 and all(f[0] == 'akima' and f[1] == 'InterpND.gradient' for f in fl)
 
 
+# InterpND.gradient(x) compares only the point with the cached one: after interpolate(x) WITHOUT derivatives the stale
+# (N-d akima: uninitialised) d_dx is returned
+def pred_gradient_after_value_only(scenario, info):
+    s = scenario
+    fl = s.get('failing', [])
+    if 'hist' not in s or not fl:
+        return False
+    k = s.get('failing_call', 0)
+    h = s['hist']
+    return k >= 1 and h[k][0] == 'grad' and h[k - 1][0] == 'val' and h[k - 1][1] == h[k][1] and \
+        all(f[0] == 'akima' for f in fl)
+
+
 def replay(ctx):
     with open(ctx.replay) as f:
         rec = json.load(f)
@@ -692,7 +708,9 @@ def replay(ctx):
 def run(ctx):
     ctx.register_predicates({'C16-akima-training-gradient': pred_akima_training_gradient,
                              'C16-akima-four-point-grid': pred_akima_four_points,
-                             'C16-gradient-method-akima-nd': pred_gradient_method})
+                             'C16-gradient-method-akima-nd': pred_gradient_method,
+                             'C16-gradient-after-value-only-interpolate': pred_gradient_after_value_only,
+                             'C16-fixed-method-mixed-batch': c15.pred_fixed_mixed_batch})
     if getattr(ctx, 'replay', None):
         return replay(ctx)
     quick = ctx.tier == 'quick'
